@@ -8,7 +8,7 @@ from bsv.linmodel import LinInterp, LinModel
 
 PROP = 'C14'
 LEVEL = 'other'
-UNITS = ['w_convert.cpp']
+UNITS = ['w_convert.cpp', 'w_archives.cpp']
 EXPLANATION = ('Calendar correctness and the exact print/parse round trip are integer arithmetic over 2^64 instants and are NOT decided '
                '(DESIGN.md section 6). Decided is one necessary structural clause of "the text form is the correct date-time": the text is '
                'produced inside its buffer. R14.1: in PrintIsoUtc and PrintDurationPart every character is stored at a position p with '
@@ -141,6 +141,11 @@ def run(prog, rep):
                             % (short, what, len([o for o in oks if not o]), len(oks)), func=f.id)
 
     check_floor_bias(prog, rep)
+
+    rep.rule('R14.4', 'time_point / duration -> binary timestamp: the seconds component is rounded toward minus infinity so that the nanoseconds stay in '
+                      '[0, 999999999] (shared with C06 R6.3): negative sub-second values survive the MsgPack form', floor=4)
+    from rules import c06
+    c06.check_floor_split(prog, rep, 'R14.4')
 
     rep.rule('R14.2', 'callers: the buffer passed to PrintIsoUtc / the duration printer is a local char array passed together with its own end', floor=3)
     n2 = 0
